@@ -127,6 +127,8 @@ EventOk ==
       \* C14: largest index used + 1 <= buffer length, for each unchecked access site
       [] e.ev = "idx"    -> \A i \in 1..(Len(e.a) \div 2) : e.a[2 * i - 1] <= e.a[2 * i]
       [] e.ev = "ctrstress" -> CtrStressOk(e)
+      \* two renderings of the same quantity (e.g. bit patterns of the binding's and of the core's result) must be equal
+      [] e.ev = "eq"     -> e.a = e.b /\ e.a # "missing"
       [] e.ev = "batchlen" -> e.got = e.n          \* a batch call returns one result per argument
       [] e.ev = "eof"    -> l - 1 = Len(Rec)
       [] OTHER           -> FALSE
